@@ -15,6 +15,7 @@ import (
 	"bytes"
 	"flag"
 	"fmt"
+	"os"
 	"testing"
 	"testing/synctest"
 	"time"
@@ -195,18 +196,53 @@ func partA(t *testing.T, c *report.Check) {
 }
 
 func TestCheck(t *testing.T) {
+	if explore.WorkerScenario() == "raft" {
+		n, f := raftParams(report.Tier() == "thorough")
+		explore.WorkerLoop(raftBody(t, n, f))
+		return
+	}
 	c := report.Begin("C07", "model_checking")
 	c.Rule = "(a) states = (canonical dump of the primary's real meta.Data, held snapshot images) reached by BFS over commands/Snapshot/Persist on the real storeFSM; (b) every (type value 0..40, extension kind) request body through the real validateCommand and Apply; distinct = states + outcome classes"
 	c.Assumptions = []string{
 		"consensus safety of hashicorp/raft (log agreement, snapshot/install protocol) is trusted: the FSM, snapshot, validation and apply code of this repository is what is explored",
 		"storeFSM runs on a store built without raft; Persist is run at every later point of the log (this is the only granularity at which raft's concurrent snapshot persistence is observable by the FSM)",
 		"legacy commands CreateNode/RemovePeer need a raft instance to apply: for them acceptance is compared with payload validity instead of being applied",
+		"(d) real meta.Service x3 (hashicorp/raft, raft-boltdb, HTTP handler) and a real meta.Client in one synctest bubble over in-memory connections: the placement of node stops/starts in a script of client commands is enumerated; raft's own randomised timeouts and goroutine schedules are not owned (one run per placement), waits are virtual minutes",
+	}
+	if os.Getenv("VERIF_C07_ONLY") == "raft-smoke" { // development aid
+		out := raftBody(t, 3, 2)(explore.NewTape([]int{0, 1, 0, 3}))
+		fmt.Printf("smoke: %+v\n", out)
+		return
+	}
+	if rp := replayOf(); rp != nil && rp.Scenario == "raft service: client commands x node stops and restarts" {
+		n, f := raftParams(c.Thorough())
+		out, tp := explore.Replay(rp.Tape, raftBody(t, n, f))
+		fmt.Printf("replay %v\noutcome: %+v\n", tp.Labels(), out)
+		if out.Violation != "" {
+			report.ExitCode = 1
+		}
+		return
 	}
 	partA(t, c)
 	partB(t, c)
 	if *replayFile == "" {
+		r := explore.ExploreProcs(explore.ProcConfig{Scenario: "raft", Bound: -1, Procs: 16, Budget: 8, Deadline: 30 * time.Minute})
+		c.AddExplore("raft service: client commands x node stops and restarts", r, map[string]any{"scenario": "raft"})
+	}
+	if *replayFile == "" {
 		report.ExitCode = c.Finish()
 	}
+}
+
+func replayOf() *report.Replay {
+	if *replayFile == "" {
+		return nil
+	}
+	rp, err := report.LoadReplay(*replayFile)
+	if err != nil {
+		return nil
+	}
+	return rp
 }
 
 func TestMain(m *testing.M) { flag.Parse(); report.Main(m.Run) }
